@@ -209,8 +209,9 @@ def run(ctx, chk):
                 and o["rtype"][0] == m["rtype"][0] and o["rid"][0] == m["rid"][0]
             chk.check(R3, same, "Builder::%s~%s" % (m["name"], o["name"]), "insert_ variant builds a different instruction than its twin", m["where"])
 
-    R4 = chk.rule("R-VER", "set_version stores create_word_from_version(major, minor); the loader reads it back with "
-                  "create_version_from_word; the two functions are inverse on bytes 1 and 2 of the word (0x00MMmm00)")
+    R4 = chk.rule("R-VER", "ModuleHeader::set_version / Builder::set_version (with and without a header) leave the version word 0x00MMmm00 and "
+                  "nothing else changed; ModuleHeader::version / Builder::version read (byte 2, byte 1) back (evaluated with the real "
+                  "helper functions inlined); create_word_from_version and create_version_from_word are inverse on those bytes")
     from . import lookx, asmx
     try:
         wv, vv = lookx.version_functions(ctx)
@@ -219,16 +220,9 @@ def run(ctx, chk):
                   raw.where("create_word_from_version", None, "version.rs"), sample={"pack": str(wv), "unpack": str(vv)})
     except Anchor as ex:
         chk.bad(R4, "version-functions-inverse", "not analysable: %s" % ex, raw.where("create_word_from_version", None, "version.rs"))
-    sv = ctx.rspirv.fn("rspirv::dr::constructs", "set_version", "ModuleHeader", False)
-    chk.check(R4, [show_stmt(s) for s in sv["body"][1]] == ["self.version = version::create_word_from_version(major, minor);"],
-              "ModuleHeader::set_version", "is %s" % [show_stmt(s) for s in sv["body"][1]], raw.where("set_version", "ModuleHeader"))
-    gv = ctx.rspirv.fn("rspirv::dr::constructs", "version", "ModuleHeader", False)
-    chk.check(R4, [show_stmt(s) for s in gv["body"][1]] == ["version::create_version_from_word(self.version)"],
-              "ModuleHeader::version", "is %s" % [show_stmt(s) for s in gv["body"][1]], raw.where("version", "ModuleHeader"))
-    bs = ctx.rspirv.fn("rspirv::dr::build", "set_version", "Builder")
-    last = show_stmt(bs["body"][1][-1])
-    chk.check(R4, last.replace(";", "") == "self.module.header.as_mut().unwrap().set_version(major, minor)", "Builder::set_version",
-              "is %s" % last, raw.where("set_version", "Builder"))
+    from . import headerx
+    nv = headerx.report(chk, R4, raw, headerx.header_api_problems(ctx), only=["set_version", "::version"], keyp="C06")
+    chk.floor(R4, "version API cases", nv, 6)
     chk.analysed.update({"builder_methods": len(ms), "emitting": len(em), "loader_evaluations": len(cache)})
 
 
